@@ -99,11 +99,11 @@ func init() {
 			Scenarios: []scenSpec{{Name: "sess", Share: 1}}, LevelText: c.text + ". Seeded search over schedules, fault sequences and generated workloads on the real package code; violations minimised and replayed exactly. Sampling, not proof.", Rule: sessRule})
 	}
 	reg(&propSpec{ID: "C14", Level: "fault_enumeration", QuickSec: 45, ThoroughSec: 1200, DesignRef: "6.C14",
-		Scenarios: []scenSpec{{Name: "sess", Share: 1}},
+		Scenarios: []scenSpec{{Name: "sess", Share: 1, Opts: map[string]string{"sweep": "1"}}},
 		LevelText: "the session workload of C05-C11 with one fault injected at an exact scheduling step chosen from the tape (and, in the thorough tier, swept over the steps of sampled base runs): the peer process is killed (its goroutines frozen, its descriptors closed, shared memory left as it was), the connection is severed (with or without reset), or Session.Close is called once/twice/concurrently from foreign goroutines during traffic - during the handshake or at any later step. Oracle on the survivors: session closed within 5 s (virtual), no thread still blocked 30 s later, later calls fail, callback streams get exactly one close callback, no panic or access to unmapped memory (quarantined mappings), and after Close of both ends no descriptor, mapping or /dev/shm file of the session is left (ledger of the simulated kernel).",
 		Rule: sessRule + "; fault step drawn during the handshake (absolute step 5..400) or 0..5000 steps after establishment; fault kinds kill_client, kill_server, sever, sever_rst, close_client, close_server, close_both"})
 	reg(&propSpec{ID: "C12", Level: "fault_enumeration", QuickSec: 35, ThoroughSec: 900, DesignRef: "6.C12",
-		Scenarios: []scenSpec{{Name: "hs", Share: 1}},
+		Scenarios: []scenSpec{{Name: "hs", Share: 1, Opts: map[string]string{"sweep": "1"}}},
 		LevelText: "the real client and server handshakes over the simulated kernel for both mapping back-ends (memfd with fd passing -> protocol 3, /dev/shm file -> protocol 2), unix and tcp transport, with the peer made to stop answering (process frozen, connection open) or to die right after its k-th socket operation, k swept over the exchange; oracle: both ends succeed with the lower common version and the same buffer/queue memory seen through both mappings (pattern written through one mapping and read through the other, queues cross-wired), or both live ends fail within InitializeTimeout + 2 s, and after Close nothing (descriptor, memfd, mapping, file) is left in the ledger of the simulated kernel.",
 		Rule: "seeded session configurations x mapping type x transport x InitializeTimeout x fault (freeze|kill of client|server after its k-th socket operation, k in 0..13) x fragmentation x schedules; non-trivial = more than 2 socket operations were executed; distinct = distinct schedule signatures among non-trivial runs"})
 	mgrRule := "seeded generation of a SessionManager configuration (1-3 sessions, pool capacity 1-4, rebuild interval 0.1-6 s), 1-4 caller threads doing GetStream/request/response/PutBack with keyed payloads (server-side close, unread responses, late unsolicited data, Close instead of PutBack), and a fault timeline (server killed/restarted, server-side sessions closed, hot restart with the new listener present, late or absent, repeated/stale epochs, SessionManager.Close) x seeded schedules; non-trivial = at least one use and more than 300 context switches; distinct = distinct schedule signatures among non-trivial runs"
@@ -148,6 +148,7 @@ type runRecord struct {
 	Tape       []uint32           `json:"tape,omitempty"`
 	WallUs     int64              `json:"wall_us"`
 	Other      []failure          `json:"other_property,omitempty"`
+	Variant    bool               `json:"variant,omitempty"`
 }
 
 type failure struct {
@@ -593,7 +594,13 @@ func cmdCheck(prop string, args []string) int {
 		f   failure
 	}
 	var viols []viol
+	variants, bases := 0, 0
 	for _, r := range all {
+		if r.Variant {
+			variants++
+		} else {
+			bases++
+		}
 		results[r.Result]++
 		if r.Nontrivial {
 			sigs[r.Scenario+":"+r.Sig] = true
@@ -715,6 +722,10 @@ func cmdCheck(prop string, args []string) int {
 		"workers":             workers,
 		"build_s":             buildS,
 		"exhaustive":          false,
+	}
+	if variants > 0 {
+		cov["fault_sweep"] = map[string]interface{}{"base_runs": bases, "fault_variants": variants,
+			"note": "thorough tier: each base run (fault-free, same plan and seed) is re-executed with the fault placed at every enumerated point of it"}
 	}
 	ev := evidence{PropertyID: prop, Tier: *tier, Seed: master, Level: spec.Level, Coverage: cov,
 		Assumptions: append(append([]string{}, commonAssumptions...), spec.Assumptions...), WallS: wall, Violations: nViol}
